@@ -837,6 +837,9 @@ func (s *Shared) runPath(tb *TermTable, solver *Solver, prefix []Decision, model
 				status, msg = x.status, x.msg
 			case *goPanicSig:
 				status, msg = "panic", x.msg
+				if os.Getenv("GOSMT_PANICWHERE") != "" && x.at != "" {
+					msg += " @" + x.at
+				}
 				gp = x
 			default:
 				st := strings.Split(string(debug.Stack()), "\n")
